@@ -20,6 +20,9 @@ verus! {
 //@  | edit::ReplaceOp
 //@  > ReplaceOp
 //@end
+/// R13v: `&v[0..n]`
+#[verifier::external_body] fn vec_prefix(v: &Vec<usize>, n: usize) -> (r: &[usize]) requires n <= v@.len() ensures r@ == v@.subrange(0, n as int) { &v[0..n] }
+fn usize_min(a: usize, b: usize) -> (r: usize) ensures r == (if a <= b { a } else { b }) { if a <= b { a } else { b } }
 /// opaque collaborators: grammar with its character-class table (C17 decides get_category_types)
 #[verifier::external_body] pub struct CharacterCategory { _p: () }
 impl CharacterCategory {
@@ -272,6 +275,52 @@ impl InputBuffer {
             encode_utf8_valid_utf8(self.modified@); is_char_boundary_start_end_of_seq(sbytes(self.modified));
             if data.start < data.end { assert(self.mod_c2b@[data.start as int] < self.mod_c2b@[data.end as int]); }
         }
+//@end
+//@extract sudachi/src/input_text/buffer/mod.rs :: impl InputBuffer :: fn get_original_index
+//@  rw R3d 1
+//@  ret r
+//@  spec
+        requires buf_ro(*self), index <= sbytes(self.modified).len(),
+        ensures r == self.m2o@[index as int], r <= sbytes(self.original).len(),
+//@end
+//@extract sudachi/src/input_text/buffer/mod.rs :: impl InputBuffer :: fn curr_byte_offsets
+//@  rw R3 1
+//@  rw R13v * custom
+//@  | &self\.mod_c2b\[0\.\.([^\]]+)\]
+//@  > vec_prefix(&self.mod_c2b, \1)
+//@  ret r
+//@  spec
+        requires buf_ro(*self),
+        // C13: one byte offset per character of the normalised text (the sentinel is not handed out)
+        ensures r@ == self.mod_c2b@.subrange(0, self.mod_chars@.len() as int),
+//@end
+//@extract sudachi/src/input_text/buffer/mod.rs :: impl InputTextIndex for InputBuffer :: fn cat_at_char
+//@  twin
+//@  rw R3 1
+//@  ret r
+//@  spec
+        requires buf_ro(*self), offset < self.mod_chars@.len(),
+        ensures r == self.mod_cat@[offset as int],
+//@end
+//@extract sudachi/src/input_text/buffer/mod.rs :: impl InputTextIndex for InputBuffer :: fn cat_continuous_len
+//@  twin
+//@  rw R3 1
+//@  ret r
+//@  spec
+        requires buf_ro(*self), offset < self.mod_chars@.len(),
+        ensures r == self.mod_cat_continuity@[offset as int],
+//@end
+//@extract sudachi/src/input_text/buffer/mod.rs :: impl InputTextIndex for InputBuffer :: fn char_distance
+//@  twin
+//@  rw R3 1
+//@  rw R13m * custom
+//@  | \(cpt \+ offset\)\.min\(self\.mod_chars\.len\(\)\)
+//@  > usize_min(cpt + offset, self.mod_chars.len())
+//@  ret r
+//@  spec
+        requires buf_ro(*self), cpt <= self.mod_chars@.len(), cpt + offset <= usize::MAX,
+        // C13: `offset` characters further, clipped at the end of the text
+        ensures r == (if cpt + offset <= self.mod_chars@.len() { offset as int } else { self.mod_chars@.len() - cpt }),
 //@end
 //@extract sudachi/src/input_text/buffer/mod.rs :: impl InputBuffer :: fn to_curr_byte_idx
 //@  rw R3 1
